@@ -707,24 +707,20 @@ impl<'a> Compiler<'a> {
                 if variable.is_empty() {
                     return Err(self.error(CompilationErrorPayload::EmptyVariable));
                 }
-                let varhash = Handle::from_bytes(variable.as_bytes());
-
                 let id = self
                     .program
                     .variables
-                    .ids
-                    .entry(varhash)
-                    .or_insert_with(move || {
+                    .id_or_insert_with(variable, move || {
                         let id = *next_var;
                         *next_var = VariableId(id.0 + 1);
                         id
-                    });
-                self.program
-                    .variables
-                    .names
-                    .entry(Handle::from_u32(id.0))
-                    .or_insert_with(move || variable.to_string());
-                write_to_vec(*id, &mut self.program.bytecode);
+                    })
+                    .ok_or_else(|| {
+                        self.error(CompilationErrorPayload::BadVariableName(
+                            variable.to_string(),
+                        ))
+                    })?;
+                write_to_vec(id, &mut self.program.bytecode);
             }
             CardBody::IfElse(children) => {
                 let [condition, then_card, else_card] = &**children;
@@ -996,22 +992,19 @@ impl<'a> Compiler<'a> {
             }
             Variable::Global => {
                 let next_var = &mut self.next_var;
-                let varhash = Handle::from_bytes(variable.as_bytes());
-                let id = *self
+                let id = self
                     .program
                     .variables
-                    .ids
-                    .entry(varhash)
-                    .or_insert_with(move || {
+                    .id_or_insert_with(variable, move || {
                         let id = *next_var;
                         *next_var = VariableId(id.0 + 1);
                         id
-                    });
-                self.program
-                    .variables
-                    .names
-                    .entry(Handle::from_u32(id.0))
-                    .or_insert_with(|| variable.to_string());
+                    })
+                    .ok_or_else(|| {
+                        self.error(CompilationErrorPayload::BadVariableName(
+                            variable.to_string(),
+                        ))
+                    })?;
                 self.push_instruction(Instruction::ReadGlobalVar);
                 write_to_vec(id, &mut self.program.bytecode);
             }
